@@ -46,24 +46,26 @@ class Ctx:
         return self.wtp.expand(text)
 
     def run(self, text: str, limit: float = 3.0):
-        """-> ("ok", output) or ("exc", 'Type: message'); a call that does not
-        return within `limit` seconds is reported as ("exc", "Timeout: ...")"""
-        old = signal.signal(signal.SIGALRM, _on_alarm)
-        signal.setitimer(signal.ITIMER_REAL, limit)
+        """-> ("ok", output) or ("exc", 'Type: message'); a call that has not
+        returned after `limit` seconds of CPU time of this process (so: independent
+        of the load of the machine; an ordinary call takes milliseconds) is
+        reported as ("exc", "Timeout: ...")"""
+        old = signal.signal(signal.SIGVTALRM, _on_alarm)
+        signal.setitimer(signal.ITIMER_VIRTUAL, limit)
         try:
             return ("ok", self.expand(text))
         except _Timeout:
-            signal.setitimer(signal.ITIMER_REAL, 0)
+            signal.setitimer(signal.ITIMER_VIRTUAL, 0)
             self.wtp.start_page(self.title)
-            return ("exc", f"Timeout: no result within {limit:g} s")
+            return ("exc", f"Timeout: no result after {limit:g} s of CPU time")
         except Exception as e:  # noqa: BLE001 - an escaping exception is the observation
-            signal.setitimer(signal.ITIMER_REAL, 0)
+            signal.setitimer(signal.ITIMER_VIRTUAL, 0)
             # an escaping exception leaves its frames on expand_stack; start afresh
             self.wtp.start_page(self.title)
             return ("exc", f"{type(e).__name__}: {e}"[:200])
         finally:
-            signal.setitimer(signal.ITIMER_REAL, 0)
-            signal.signal(signal.SIGALRM, old)
+            signal.setitimer(signal.ITIMER_VIRTUAL, 0)
+            signal.signal(signal.SIGVTALRM, old)
 
     def close(self):
         try:
@@ -88,12 +90,16 @@ def conc_tok(t: str) -> str:
 
 
 def _need_space(a: str, b: str) -> bool:
-    """Would the two lexemes merge (or lex differently) when written adjacent?"""
+    """Would the two lexemes merge (or lex differently) when written adjacent?
+    (the same rule as NeedSpace of spec/Expr.tla, which MC_Expr_tokenizer.cfg
+    checks against the model of the tokeniser)"""
     if a[-1].isalpha() and b[0].isalpha():
         return True
-    if (a[-1].isdigit() or a[-1] == ".") and (b[0].isdigit() or b[0] == "."):
+    if b[0].isdigit() and (a[-1].isdigit() or a[-1] == "."):
         return True
-    if a[-1] in "<>!=" and b[0] in "<>=":
+    if b[0] == "." and a.isdigit():
+        return True
+    if (a == "!" and b[0] == "=") or (a == "<" and b[0] in ">=") or (a == ">" and b[0] == "="):
         return True
     return False
 
